@@ -3,10 +3,10 @@ package main
 import "fmt"
 
 // number of templates in harness/commonmark/h_tl.go
-const nTL = 112
+const nTL = 114
 
 // quick-tier subset of TL (at most two holes, cheap)
-var tlQuick = []int{0, 1, 2, 3, 5, 6, 7, 8, 9, 10, 11, 12, 13, 14, 15, 16, 17, 18, 19, 20, 22, 23, 24, 25, 27, 28, 29, 30, 32, 33, 34, 35, 39, 40, 44, 48, 49, 53, 54, 59, 60, 61, 62, 63, 64, 65, 66, 67, 68, 69, 70, 71, 72, 73, 74, 75, 76, 77, 78, 79, 80, 81, 82, 83, 84, 85, 86, 87, 88, 89, 90, 91, 92, 93, 94, 95, 96, 97, 98, 99, 100, 101, 102, 103, 104, 105, 106, 107, 108, 109, 110, 111}
+var tlQuick = []int{0, 1, 2, 3, 5, 6, 7, 8, 9, 10, 11, 12, 13, 14, 15, 16, 17, 18, 19, 20, 22, 23, 24, 25, 27, 28, 29, 30, 32, 33, 34, 35, 39, 40, 44, 48, 49, 53, 54, 59, 60, 61, 62, 63, 64, 65, 66, 67, 68, 69, 70, 71, 72, 73, 74, 75, 76, 77, 78, 79, 80, 81, 82, 83, 84, 85, 86, 87, 88, 89, 90, 91, 92, 93, 94, 95, 96, 97, 98, 99, 100, 101, 102, 103, 104, 105, 106, 107, 108, 109, 110, 111, 112, 113}
 
 func fJobs(h string, quickN []int, thoroughN []int, second int64, clausePanic string) []JobSpec {
 	var js []JobSpec
@@ -340,6 +340,9 @@ func propSpecs() map[string]*PropSpec {
 	}
 	cm(c16, "H_C16", 0, 4, "F(4)", "thorough")
 	for _, i := range tlQuick {
+		if i == 113 {
+			continue // TL[113] shows known findings 2 and 3 on nearly every path (see known_findings.txt); TL[112] and TL[61] stand for it
+		}
 		cm(c16, "H_C16", 1, int64(i), fmt.Sprintf("TL[%d]", i), "quick")
 	}
 	for n := int64(1); n <= 2; n++ {
